@@ -4,6 +4,7 @@ import (
 	"regexp"
 	"slices"
 
+	"github.com/cespare/xxhash/v2"
 	"golang.org/x/exp/maps"
 
 	"github.com/tdakkota/docker-logql/internal/logql"
@@ -38,8 +39,11 @@ type AggregatedLabels interface {
 
 type emptyLabels struct{}
 
-func (l *emptyLabels) By(_ ...logql.Label) AggregatedLabels                      { return l }
-func (l *emptyLabels) Without(_ ...logql.Label) AggregatedLabels                 { return l }
-func (l *emptyLabels) Key() GroupingKey                                          { return 0 }
+func (l *emptyLabels) By(_ ...logql.Label) AggregatedLabels      { return l }
+func (l *emptyLabels) Without(_ ...logql.Label) AggregatedLabels { return l }
+
+// Key returns the key every other implementation computes for a set without
+// labels (a hash of no input), so that vector(c) matches ungrouped aggregations.
+func (l *emptyLabels) Key() GroupingKey                                          { return xxhash.Sum64(nil) }
 func (l *emptyLabels) Replace(_, _, _ string, _ *regexp.Regexp) AggregatedLabels { return l }
 func (l *emptyLabels) AsLokiAPI() lokiapi.LabelSet                               { return lokiapi.LabelSet{} }
